@@ -569,9 +569,11 @@ theorem geometryH_good (eb box : Bound α) (g : SGeom α) (σ σ' : Store α) (r
     simp only [geometryH] at hr
     split at hr
     · simp only [Option.some.injEq, Prod.mk.injEq] at hr; rw [← hr.1, ← hr.2]; exact Good.refl _ _
-    · split at hr <;> (simp only [Option.some.injEq, Prod.mk.injEq] at hr; rw [← hr.1, ← hr.2])
-      · exact Good.refl _ _
-      · exact Good.refl _ _
+    · split at hr
+      · simp only [Option.some.injEq, Prod.mk.injEq] at hr; rw [← hr.1, ← hr.2]; exact Good.refl _ _
+      · split at hr <;> (simp only [Option.some.injEq, Prod.mk.injEq] at hr; rw [← hr.1, ← hr.2])
+        · exact Good.refl _ _
+        · exact Good.refl _ _
   | h2 h =>
     simp only [geometryH] at hr
     split at hr
